@@ -21,7 +21,8 @@ REQUIRED_THEOREMS = ['runs_disjoint', 'sweep_disjoint', 'sweep_disjoint_ip', 'sw
                      'mergedExtract_disjoint', 'mergedExtract_disjoint_of_laminar', 'mergedExtract_crossing_counterexample', 'addTo_step_disjoint_iff',
                      # RTV.Props.C01DtExtract: sub-extractor tokens inside the text -> disjoint results
                      'subextractor_results_ok', 'rangePairTok_inside', 'rangeLoop_mem', 'range_from_leading_blank',
-                     'tagInequality_inside', 'mergeMultipleDuration_inside']
+                     'tagInequality_inside', 'mergeMultipleDuration_inside', 'rangePairTok_fixed_starts_at_word',
+                     'rangePairTok_fixed_clear_of_previous']
 RULE = ('pipeline: every Python-supported Specs input through its own (model, culture) pair (thorough: through every '
         'registered pair of its recogniser) + per registered pair generated queries (entity texts of the Specs and '
         'universal literals, English templates; alone / carrier / several / blank-led / adjacent / with '
